@@ -265,7 +265,14 @@ def run_impl(ctx, exe, cases, timeout=None, env=None):
     turn a slow run into a verdict; the wall-clock timeout is only a generous backstop."""
     cpu = timeout if timeout is not None else 60 + len(cases) // 5 + sum(
         (expected_iterations(c) if c.get("kind") == "SPE" else 0) for c in cases) // 2000
-    wall = 4 * cpu + 240
+    # RLIMIT_CPU counts every thread of the process: a library that uses OpenMP must not look like a hang because its idle
+    # threads spin; the application (this harness) fixes a small team and a passive wait policy, the limit is per thread
+    threads = 4
+    e0 = {"OMP_NUM_THREADS": str(threads), "OMP_WAIT_POLICY": "passive", "GOMP_SPINCOUNT": "0"}
+    e0.update(env or {})
+    env = e0
+    cpu *= threads
+    wall = cpu + 240
     results = [None] * len(cases)
     index = {c["id"]: i for i, c in enumerate(cases)}
     start = 0
@@ -300,7 +307,7 @@ def run_impl(ctx, exe, cases, timeout=None, env=None):
             break
         hung = r.timed_out or r.rc in (-24, -9, 152, 137)
         results[bad] = {"status": "CRASH", "crashed": True,
-                        "detail": (r.sanitizer or (("CPU time limit of %d s exceeded in a batch of %d small cases (hang)" % (cpu, len(cases) - start))
+                        "detail": (r.sanitizer or (("CPU time limit of %d s (summed over %d threads) exceeded in a batch of %d small cases (hang)" % (cpu, threads, len(cases) - start))
                                                    if hung else (r.err[-600:] or "rc=%s" % r.rc)))}
         start = bad + 1
         crashes += 1
@@ -789,8 +796,44 @@ def public(c):
     return {k: v for k, v in c.items() if k not in ("measure", "cols", "_T", "_wantT")}
 
 
+def canon_call_order(c, r):
+    """The ORDER in which an iteration asks for its nu distances is not part of the property (a library may evaluate them
+    from several threads): the logged (id, id) calls of iteration t are put into the order of their first members in the
+    shuffled array, S_t[0], S_t[1], ... (the identity for the sequential loop); left alone when that order is ambiguous."""
+    nu = min(effective(c)["nupd"], len(c["range"]) // 2)
+    for t, p in enumerate(r.get("P", [])):
+        if t >= len(r.get("S", [])) or len(p) != 2 * nu or len(r["S"][t]) < nu:
+            continue
+        try:
+            want = [c["range"][a] for a in r["S"][t][:nu]]
+        except (IndexError, TypeError):
+            continue
+        pairs = [(p[j], p[j + 1]) for j in range(0, 2 * nu, 2)]
+        want2 = None
+        if effective(c)["global"] and len(r["S"][t]) >= 2 * nu:
+            try:
+                want2 = [c["range"][a] for a in r["S"][t][nu:2 * nu]]       # global strategy: the partner is known too
+            except (IndexError, TypeError):
+                want2 = None
+        # greedy matching of the logged calls to the expected order (first member, and second member when it is known)
+        free = list(range(nu))
+        order = []
+        for j in range(nu):
+            hit = next((i for i in free if pairs[i][0] == want[j] and (want2 is None or pairs[i][1] == want2[j])), None)
+            if hit is None:
+                break
+            free.remove(hit)
+            order.append(hit)
+        if len(order) != nu or (want2 is None and len(set(want)) != nu):
+            continue
+        r["P"][t] = [v for i in order for v in pairs[i]]
+
+
 def eval_spe(ctx, exe, mexe, cases, st):
     res = run_impl(ctx, exe, cases)
+    for c, r in zip(cases, res):
+        if r.get("status") == "OK" and r.get("P"):
+            canon_call_order(c, r)
     cases = [effective(c) for c in cases]      # keywords left unset (flags) take the documented defaults
     todo = []
     for c, r in zip(cases, res):
@@ -970,8 +1013,9 @@ def eval_spe(ctx, exe, mexe, cases, st):
         # the max-distance double loop must ask for distance(begin[i], begin[j]), i < j, in order (extracted max_loop_calls)
         if "MAXL" in r:
             col = {nm: p_ for p_, nm in enumerate(c["names"])}
-            got = " ".join("%d:%d" % (col.get(r["MAXL"][j], -1), col.get(r["MAXL"][j + 1], -1)) for j in range(0, len(r["MAXL"]) - 1, 2))
-            want = xb[0][6:].strip() if xb and xb[0].startswith("PAIRS") else None
+            # as a SET of calls: the order of the double loop is free (it may be evaluated from several threads)
+            got = " ".join(sorted("%d:%d" % (col.get(r["MAXL"][j], -1), col.get(r["MAXL"][j + 1], -1)) for j in range(0, len(r["MAXL"]) - 1, 2)))
+            want = " ".join(sorted(xb[0][6:].split())) if xb and xb[0].startswith("PAIRS") else None
             if want != got:
                 ctx.mismatch(pc, "max-distance loop: distance callback arguments (pool rows) %s..., model max_loop_calls %s... "
                                  "(range kind %s)" % (got[:80], str(want)[:80], c.get("rkind")))
